@@ -327,7 +327,14 @@ def _subst_atom(a, mp) -> Frac:
         mp2 = {k: v for k, v in mp.items() if k != a[2]}
         return mk_red(a[1], a[2], _subst_frac(a[3], mp2), _subst_frac(a[4], mp2), a[5])
     if tag == "ite":
-        return mk_ite(subst(a[1], mp), _subst_frac(a[2], mp), _subst_frac(a[3], mp))
+        c = subst(a[1], mp)
+        c = _fold_cond(c)
+        # a branch that the substituted condition rules out is not evaluated (it may divide by the very value the condition guards)
+        if c is True:
+            return _subst_frac(a[2], mp)
+        if c is False:
+            return _subst_frac(a[3], mp)
+        return mk_ite(c, _subst_frac(a[2], mp), _subst_frac(a[3], mp))
     # unknown atom: rebuild args generically
     return Frac.atom(tuple(subst(y, mp) if isinstance(y, (Frac, tuple)) else y for y in a))
 
@@ -448,6 +455,29 @@ def _neg_cond(c):
     if c[0] == "or":
         return ("and",) + tuple(_neg_cond(x) for x in c[1:])
     return ("not", c)
+
+
+def _fold_cond(c):
+    """constant-fold a condition after substitution"""
+    if isinstance(c, tuple) and c:
+        if c[0] == "cmp" and isinstance(c[2], Frac) and c[2].is_const():
+            v = c[2].const_value()
+            return {"<": v < 0, "<=": v <= 0, "==": v == 0, "!=": v != 0}.get(c[1], c)
+        if c[0] == "not":
+            x = _fold_cond(c[1])
+            return (not x) if isinstance(x, bool) else ("not", x)
+        if c[0] in ("and", "or"):
+            xs = [_fold_cond(x) for x in c[1:]]
+            if c[0] == "and":
+                if any(x is False for x in xs):
+                    return False
+                xs = [x for x in xs if x is not True]
+                return True if not xs else (xs[0] if len(xs) == 1 else ("and",) + tuple(xs))
+            if any(x is True for x in xs):
+                return True
+            xs = [x for x in xs if x is not False]
+            return False if not xs else (xs[0] if len(xs) == 1 else ("or",) + tuple(xs))
+    return c
 
 
 def _canon_polarity(cond):
